@@ -1,4 +1,4 @@
 SPECIFICATION Spec
-CONSTANTS Deep = TRUE Which = {1, 2, 3, 4}
-INVARIANTS InvBoundary InvMean InvSym InvSep InvPad
+CONSTANTS Deep = TRUE Which = {1, 2, 3, 4, 5}
+INVARIANTS InvBoundary InvMean InvSym InvSep InvPad InvMedian InvWrap
 CHECK_DEADLOCK FALSE
